@@ -107,9 +107,10 @@ pub fn run_replay(args: &[String]) {
         let dev = recipe["cfgdev"].as_str().unwrap();
         let mut params = Params::random(&mut rng, maxlt);
         if strat == Strategy::BadTraceAdaptiveLeaves { params.n_queries = 1 + rng.below(2); }
+        if dev == "nativeCosets0" { params.log_cosets = 0; }
         let proved = prove(&params, rng.felt(), strat);
         let mut proof = proved.proof;
-        apply_cfg_dev(&mut proof, dev);
+        if dev != "nativeCosets0" { apply_cfg_dev(&mut proof, dev); }
         let sb = proved.security_bits;
         let (v, events, _) = verify_toy(&proof, sb, Some(2_000_000), true);
         let expect_ok = recipe["expect"] == "accept";
